@@ -86,8 +86,14 @@ def run(ctx):
         fg = None
         if use_fg:
             fg, _, __ = rd.boltzmann_radial_potential_linear_density_ebeam(r, cur, r_e, e, 0, 1, 1)
-        impl = rd.boltzmann_radial_potential_linear_density_ebeam(r, cur, r_e, e, col(nl), col(kT), col(q), first_guess=None if fg is None else fg.copy(), ldu=ldu, max_step=500, rel_diff=rel)
+        fg_given = None if fg is None else fg.copy()
+        ldu_given = None if ldu is None else tuple(a.copy() for a in ldu)
+        impl = rd.boltzmann_radial_potential_linear_density_ebeam(r, cur, r_e, e, col(nl), col(kT), col(q), first_guess=fg_given, ldu=ldu_given, max_step=500, rel_diff=rel)
         phi_eb = impl[0].copy()
+        # the arrays the caller hands in (the ion-free potential as first guess, a pre-computed FD system, the grid) are the caller's: an
+        # ion-free result used as first guess must still be the pure beam potential afterwards
+        if (fg is not None and not np.array_equal(fg_given, fg)) or (ldu is not None and any(not np.array_equal(a, b) for a, b in zip(ldu_given, ldu))):
+            ctx.fail("correspondence", "boltzmann_radial_potential_linear_density_ebeam modified the first_guess / ldu arrays of its caller", inp=dict(variant="ebeam_inputs_modified", cur=cur, e_kin=e, r_e=r_e, r=r, nl=nl, kT=kT, q=q))
         line = (f"bpebeam {bits(cur)} {bits(r_e)} {bits(e)} {bits(rel)} 500 " + " ".join(farr(v) for v in (r, nl, kT, q)) + " " + fmt_opt(fg) + " "
                 + ("1 " + " ".join(farr(v) for v in ldu) if ldu is not None else "0"))
         model = parse_bp(D.ask(line), ng, ns)
@@ -233,6 +239,13 @@ def search(ctx):
             add("ion_free", "e-beam solver with zero line densities differs from the pure beam potential", desc)
         if np.any((q > 0) & (nl > 0)) and (phi < free - 1e-6 * np.abs(free).max() - 10 * rel * np.abs(free).max()).any():
             add("ions_raise_potential", f"adding positive ions lowers the potential by {np.max(free - phi):.3e}", desc)
+        # the two-call sequence of a caller that keeps its ion-free result and hands it in as first guess (as
+        # AdvancedResult.radial_distribution_at_time does): afterwards the kept array must still be the pure beam potential
+        kept = free.copy()
+        rd.boltzmann_radial_potential_linear_density_ebeam(r, cur, r_e, e, col(nl), col(kT), col(q), first_guess=kept, rel_diff=rel)
+        if not np.array_equal(kept, free):
+            add("ion_free", f"the ion-free potential handed in as first_guess was overwritten by the solver (changed by up to {np.abs(kept - free).max():.3e} V): "
+                "the caller's ion-free result no longer equals the pure beam potential", dict(desc, variant="ebeam_first_guess_kept"))
         rho0 = np.where(r <= r_e, -cur / (np.sqrt(2 * Q_E * e / M_E) * PI * r_e ** 2), 0.0)
         rho0 = rho0 + rho0[0] * 1e-5 * (1 + 0.3 * np.cos(np.arange(r.size)))     # a faint halo that reaches the wall node
         rho_ = rho0.copy(); rho_[-1] = 0
